@@ -122,7 +122,7 @@ func (t *Text) GenerateOutput(textOnly bool) string {
 	}
 
 	if CanBeNested(dom.TagName(clonedRoot)) {
-		return dom.InnerHTML(clonedRoot)
+		return domutil.InnerHTML(clonedRoot)
 	}
 
 	return dom.OuterHTML(clonedRoot)
